@@ -6,7 +6,7 @@ EXTENDS DSMRStorage_MC, Json, Sequences, SequencesExt
 
 CONSTANTS Depth
 VARIABLE hist
-gvars == <<svars, hist>>
+gvars == <<mvars, hist>>
 
 Rec(op, c, flag, t, save) ==
   [op |-> op, c |-> c, flag |-> flag, t |-> t, save |-> SetToSeq(save), res |-> res',
@@ -16,7 +16,7 @@ GInit == MCInit /\ hist = <<[op |-> "init", c |-> "", flag |-> FALSE, t |-> 0, s
                              pend |-> <<>>, get |-> <<>>, min |-> 0, w |-> w, attr |-> attr]>>
 
 GNext ==
-  /\ Len(hist) < Depth
+  /\ Len(hist) < Depth /\ UNCHANGED atom
   /\ \/ \E c \in Chunks : AddLocal(c) /\ hist' = Append(hist, Rec("addlocal", c, TRUE, 0, {}))
      \/ \E c \in Chunks, ok \in BOOLEAN : VerifyRemote(c, ok) /\ hist' = Append(hist, Rec("remote", c, ok, 0, {}))
      \/ \E c \in Chunks, v \in BOOLEAN : SetCert(c, v) /\ hist' = Append(hist, Rec("setcert", c, v, 0, {}))
